@@ -98,6 +98,29 @@ var ExtEffects = map[string]string{
 	"(*bufio.Reader).WriteTo":     "writer",
 	"(*bufio.Reader).ReadString":  EffFSRead,
 	"bufio.NewReader":             EffPure,
+	"bufio.NewReaderSize":         EffPure,
+	"(*bufio.Reader).ReadLine":    EffFSRead,
+	"(*bufio.Reader).ReadBytes":   EffFSRead,
+	"(*bufio.Reader).ReadSlice":   EffFSRead,
+	"(*bufio.Reader).Read":        EffFSRead,
+	"(*bufio.Reader).ReadByte":    EffFSRead,
+	"(*bufio.Reader).ReadRune":    EffFSRead,
+	"(*bufio.Reader).Peek":        EffFSRead,
+	"(*bufio.Reader).Discard":     EffFSRead,
+	"(*bufio.Reader).Buffered":    EffPure,
+	"(*bufio.Reader).Reset":       EffPure,
+	"(*bufio.Scanner).Text":       EffPure,
+	"(*bufio.Scanner).Buffer":     EffPure,
+	"bufio.ScanLines":             EffPure,
+	"io.LimitReader":              EffPure,
+	"io.NopCloser":                EffPure,
+	"io.MultiReader":              EffPure,
+	"os.Getuid":                   EffPure,
+	"os.Geteuid":                  EffPure,
+	"os.IsPermission":             EffPure,
+	"os.IsTimeout":                EffPure,
+	"(*os.File).ReadAt":           EffFSRead,
+	"(*os.File).Readdirnames ":    EffFSRead,
 	"bufio.NewScanner":            EffPure,
 	"(*bufio.Scanner).Split":      EffPure,
 	"(*bufio.Scanner).Scan":       EffFSRead,
